@@ -48,6 +48,8 @@ def strategy(tier):
         "wrong": st.one_of(st.none(), st.none(), st.tuples(st.integers(0, len(OPTIONS) - 1), st.integers(0, 2))),
         "cwd": st.sampled_from(["cwd", "cwd/deeper", "else"]),
         "sfile_dir": st.sampled_from(["cfgs", "cwd", "else/conf"]),
+        # no per-user configuration file at all (the 'u' choices are ignored)
+        "no_user": st.sampled_from([False, False, False, True]),
     })
 
 
@@ -97,7 +99,7 @@ def evaluate(case):
             srcs = []
             vals = {}
             for src in ("u", "s", "c"):
-                if not sel[src]:
+                if not sel[src] or (src == "u" and case.get("no_user")):
                     continue
                 if src == "c" and key not in CLI_ABLE:
                     continue
@@ -148,8 +150,20 @@ def evaluate(case):
         sfile = os.path.join(sdir, "extra.yaml")
         with open(sfile, "w", encoding="utf-8") as f:
             yaml.safe_dump(sfile_data, f)
-        with open(sb.path("cfg", "config.yaml"), "w", encoding="utf-8") as f:
-            yaml.safe_dump(user_data, f)
+        if user_data or not case.get("no_user"):
+            with open(sb.path("cfg", "config.yaml"), "w", encoding="utf-8") as f:
+                yaml.safe_dump(user_data, f)
+        else:
+            res.labels.append("no-user-config-file")
+        # CMINXDIR names the per-user configuration directory; configuration files in the platform's usual places
+        # (HOME and XDG_CONFIG_HOME point into the sandbox) are not a source and must not leak in
+        decoy = {"input": {"recursive": True, "include_undocumented_function": False, "exclude_filters": ["decoy_pattern"]},
+                 "rst": {"prefix": "DECOY", "file_extensions_in_titles": True, "module_path_separator": "!"},
+                 "output": {"directory": "decoy_out"}}
+        for where in (sb.path("cfg", ".config", "cminx"), sb.path("cfg", "cminx")):
+            os.makedirs(where, exist_ok=True)
+            with open(os.path.join(where, "config.yaml"), "w", encoding="utf-8") as f:
+                yaml.safe_dump(decoy, f)
         use_sfile = bool(sfile_data)
         full_argv = [sb.path("else", "input.cmake")] + (["-s", sfile] if use_sfile else []) + argv
         recorded = []
